@@ -194,6 +194,9 @@ fn run_parse(ctx: &Ctx, l: &[Sx]) -> Sx {
             if back != a1 {
                 return Ok(Some(("address-changed".to_string(), back)));
             }
+            if !no_socket_timeouts(s.as_raw_fd()) {
+                return Ok(Some(("socket-timeout-set".to_string(), String::new())));
+            }
             Ok(socket_target(s.as_raw_fd(), true))
         }
         Err(e) => Err(matches!(e.kind(), varlink::ErrorKind::InvalidAddress)),
@@ -367,7 +370,7 @@ pub fn exchange(mut r: Box<dyn Read + Send>, mut w: Box<dyn Write + Send>, shut:
         }
         all
     });
-    let res = with_watchdog(Duration::from_secs(8), move || {
+    let res = with_watchdog(Duration::from_secs(14), move || {
         for c in chunks {
             if w.write_all(&c).is_err() {
                 break;
@@ -390,6 +393,9 @@ fn exchange_conn(conn: std::sync::Arc<std::sync::RwLock<varlink::Connection>>, c
         let raw = c.stream.as_ref().map(|s| s.as_raw_fd()).unwrap_or(-1);
         (c.reader.take(), c.writer.take(), raw)
     };
+    if raw >= 0 && !no_socket_timeouts(raw) {
+        return sx::tagged("fail", vec![sx::xs("socket-timeout-set")]);
+    }
     match (r, w) {
         (Some(r), Some(w)) => {
             let res = exchange(
@@ -443,6 +449,53 @@ fn kill_child_of(conn: &std::sync::Arc<std::sync::RwLock<varlink::Connection>>) 
     conn.write().unwrap().child.take().map(ChildGuard::new)
 }
 
+fn xport_plain(spec: &WorldSpec, tag: &str, listen: &str, connect: &str, chunks: Vec<Vec<u8>>) -> Sx {
+    let h = spawn_service(spec, listen);
+    let r = over_address(connect, chunks);
+    let failed = h.failed.lock().unwrap().clone();
+    drop(h);
+    sx::tagged(tag, vec![match failed {
+        Some(f) => sx::tagged("fail", vec![sx::xs(&format!("listen: {}", f))]),
+        None => r,
+    }])
+}
+
+/// socket activation: (result, activation facts)
+fn xport_activate(helper: &str, specfile: &str, dump: &str, chunks: Vec<Vec<u8>>) -> (Sx, Sx) {
+    let cmdline = format!("{} serve {} $VARLINK_ADDRESS --idle 2 --dump {}", helper, specfile, dump);
+    match with_watchdog(Duration::from_secs(8), move || varlink::Connection::with_activate(&cmdline)) {
+        None => (sx::tagged("activate", vec![sx::tagged("timeout", vec![])]), sx::tagged("noact", vec![])),
+        Some(Err(e)) => (
+            sx::tagged("activate", vec![sx::tagged("fail", vec![sx::xs(&format!("{:?}", e.kind()))])]),
+            sx::tagged("noact", vec![]),
+        ),
+        Some(Ok(conn)) => {
+            let guard = kill_child_of(&conn);
+            let child_pid = guard.as_ref().and_then(|g| g.child.as_ref().map(|c| c.id())).unwrap_or(0);
+            let address = conn.read().unwrap().address();
+            let r = exchange_conn(conn, chunks);
+            let act = act_sx(read_dump(dump, Duration::from_secs(3)), &address, child_pid);
+            drop(guard);
+            (sx::tagged("activate", vec![r]), act)
+        }
+    }
+}
+
+/// a bridge command: the service on stdin/stdout of `sh -c`
+fn xport_bridge(helper: &str, specfile: &str, chunks: Vec<Vec<u8>>) -> Sx {
+    let cmdline = format!("exec {} stdio {}", helper, specfile);
+    match with_watchdog(Duration::from_secs(8), move || varlink::Connection::with_bridge(&cmdline)) {
+        None => sx::tagged("bridge", vec![sx::tagged("timeout", vec![])]),
+        Some(Err(e)) => sx::tagged("bridge", vec![sx::tagged("fail", vec![sx::xs(&format!("{:?}", e.kind()))])]),
+        Some(Ok(conn)) => {
+            let guard = kill_child_of(&conn);
+            let r = exchange_conn(conn, chunks);
+            drop(guard);
+            sx::tagged("bridge", vec![r])
+        }
+    }
+}
+
 fn run_xport(ctx: &Ctx, l: &[Sx]) -> Sx {
     let spec = WorldSpec::from_sx(&l[1]).expect("world");
     let chunks: Vec<Vec<u8>> = l[2].as_list().unwrap()[1..].iter().map(|c| c.as_bytes().unwrap()).collect();
@@ -450,62 +503,44 @@ fn run_xport(ctx: &Ctx, l: &[Sx]) -> Sx {
     let specfile = format!("{}/spec", sub.dir);
     std::fs::write(&specfile, spec.to_sx().render() + "\n").unwrap();
     let helper = helper_path();
-    let mut res = Vec::new();
-
-    // the four plain addresses, served by threads of this process
+    let dump = format!("{}/dump.json", sub.dir);
     let port = free_port();
-    let listen_addrs = [
+    // the four plain addresses are served by threads of this process
+    let listen_addrs: Vec<(&'static str, String, String)> = vec![
         ("unix", format!("unix:{}/u.sock", sub.dir), format!("unix:{}/u.sock", sub.dir)),
         ("unixmode", format!("unix:{}/m.sock;mode=0666", sub.dir), format!("unix:{}/m.sock;mode=0666", sub.dir)),
         ("abstract", format!("unix:@{}", sub.abs), format!("unix:@{};x=y", sub.abs)),
         ("tcp", format!("tcp:127.0.0.1:{}", port), format!("tcp:127.0.0.1:{}", port)),
     ];
-    for (tag, listen, connect) in listen_addrs.iter() {
-        let h = spawn_service(&spec, listen);
-        let r = over_address(connect, chunks.clone());
-        let failed = h.failed.lock().unwrap().clone();
-        drop(h);
-        res.push(sx::tagged(tag, vec![match failed {
-            Some(f) => sx::tagged("fail", vec![sx::xs(&format!("listen: {}", f))]),
-            None => r,
-        }]));
-    }
-
-    // socket activation
-    let dump = format!("{}/dump.json", sub.dir);
-    let cmdline = format!("{} serve {} $VARLINK_ADDRESS --idle 2 --dump {}", helper, specfile, dump);
+    let mut res = Vec::new();
     let act;
-    match with_watchdog(Duration::from_secs(8), move || varlink::Connection::with_activate(&cmdline)) {
-        None => {
-            res.push(sx::tagged("activate", vec![sx::tagged("timeout", vec![])]));
-            act = sx::tagged("noact", vec![]);
+    if spec.up {
+        // a world with the slow interface: the transports run side by side (a reply that takes seconds
+        // must arrive on every transport; a transport with a timeout of its own shows up as a difference)
+        let mut handles = Vec::new();
+        for (tag, listen, connect) in listen_addrs.into_iter() {
+            let (spec, chunks) = (spec.clone(), chunks.clone());
+            handles.push(std::thread::spawn(move || xport_plain(&spec, tag, &listen, &connect, chunks)));
         }
-        Some(Err(e)) => {
-            res.push(sx::tagged("activate", vec![sx::tagged("fail", vec![sx::xs(&format!("{:?}", e.kind()))])]));
-            act = sx::tagged("noact", vec![]);
+        let (h2, s2, d2, c2) = (helper.clone(), specfile.clone(), dump.clone(), chunks.clone());
+        let ha = std::thread::spawn(move || xport_activate(&h2, &s2, &d2, c2));
+        let (h3, s3, c3) = (helper.clone(), specfile.clone(), chunks.clone());
+        let hb = std::thread::spawn(move || xport_bridge(&h3, &s3, c3));
+        for h in handles {
+            res.push(h.join().unwrap_or_else(|_| sx::tagged("fail", vec![sx::xs("panic")])));
         }
-        Some(Ok(conn)) => {
-            let guard = kill_child_of(&conn);
-            let child_pid = guard.as_ref().and_then(|g| g.child.as_ref().map(|c| c.id())).unwrap_or(0);
-            let address = conn.read().unwrap().address();
-            let r = exchange_conn(conn, chunks.clone());
-            res.push(sx::tagged("activate", vec![r]));
-            act = act_sx(read_dump(&dump, Duration::from_secs(3)), &address, child_pid);
-            drop(guard);
+        let (ra, a) = ha.join().unwrap_or_else(|_| (sx::tagged("activate", vec![sx::tagged("fail", vec![])]), sx::tagged("noact", vec![])));
+        res.push(ra);
+        act = a;
+        res.push(hb.join().unwrap_or_else(|_| sx::tagged("bridge", vec![sx::tagged("fail", vec![])])));
+    } else {
+        for (tag, listen, connect) in listen_addrs.iter() {
+            res.push(xport_plain(&spec, tag, listen, connect, chunks.clone()));
         }
-    }
-
-    // a bridge command: the service on stdin/stdout of `sh -c`
-    let cmdline = format!("exec {} stdio {}", helper, specfile);
-    match with_watchdog(Duration::from_secs(8), move || varlink::Connection::with_bridge(&cmdline)) {
-        None => res.push(sx::tagged("bridge", vec![sx::tagged("timeout", vec![])])),
-        Some(Err(e)) => res.push(sx::tagged("bridge", vec![sx::tagged("fail", vec![sx::xs(&format!("{:?}", e.kind()))])])),
-        Some(Ok(conn)) => {
-            let guard = kill_child_of(&conn);
-            let r = exchange_conn(conn, chunks.clone());
-            res.push(sx::tagged("bridge", vec![r]));
-            drop(guard);
-        }
+        let (ra, a) = xport_activate(&helper, &specfile, &dump, chunks.clone());
+        res.push(ra);
+        act = a;
+        res.push(xport_bridge(&helper, &specfile, chunks.clone()));
     }
     res.push(act);
     let _ = std::fs::remove_dir_all(&sub.dir);
@@ -792,6 +827,23 @@ impl Suite for AddrSuite {
                         });
                     }
                 }
+            }
+        }
+        // a reply that takes longer than any plausible per-transport timeout, on all six transports at once
+        {
+            let cfgs = wire::configs();
+            let slow_world = WorldSpec { svc: cfgs[1].sx.clone(), resolver: None, up: true };
+            let mut slow = vec![serde_json::json!({"method":"org.example.abort.SlowReply","parameters":{"delay_ms":5600,"token":"slow1"}})];
+            if ctx.thorough {
+                slow.push(serde_json::json!({"method":"org.example.abort.SlowStream","more":true,"parameters":{"delay_ms":5600,"token":"slow2"}}));
+            }
+            for v in slow {
+                let mut total = serde_json::to_vec(&v).unwrap();
+                total.push(0);
+                let mut extra = serde_json::to_vec(&serde_json::json!({"method":"org.varlink.service.GetInfo"})).unwrap();
+                extra.push(0);
+                total.extend_from_slice(&extra);
+                cases.push(Case { input: xport_case(&slow_world, &[total.clone()], &total), tags: vec!["kind:xport".into(), "xport:slow-reply".into()] });
             }
         }
         // the listener already is descriptor 3 (C16-F2)
